@@ -102,6 +102,19 @@ SOther ==
 SNext == SForward \/ SCreate \/ SCleanup \/ SOther
 SSpec == SInit /\ [][SNext]_svars
 
+\* ---- what a case may leave in its sandbox (constant level; the harness builds one case per row) ----------
+\* Entries that resist removal (no write permission; as a user other than root) or that removal and --keep must
+\* treat as what they are: a symbolic link is removed, never followed; with --keep everything - contents, kinds,
+\* permissions - stays exactly as the case left it.  The verdict is that of the ending, whatever is left.
+LeftKinds == {"ro-dir-in-act", "ro-file-in-act", "ro-dir-in-tmp", "ro-nested", "ro-act-itself", "no-access-dir",
+              "link-to-dir", "link-to-file", "dangling-link", "link-to-dir-outside"}
+LeftEndings == {"pass", "fail", "hard"}
+LeftRows == {[kind |-> kd, ending |-> e, keep |-> kp] : kd \in LeftKinds, e \in LeftEndings, kp \in BOOLEAN}
+LeftExit(e) == CASE e = "pass" -> 0 [] e = "fail" -> 32 [] e = "hard" -> 128
+LeftExpected(r) == [exit |-> LeftExit(r.ending),
+                    sandbox |-> IF r.keep THEN "kept-as-left" ELSE "removed",
+                    outside |-> "untouched"]       \* what a link points to outside the sandbox is never touched
+
 \* ---- properties -----------------------------------------------------------------------------
 \* a freshly created sandbox has the documented layout, act/ is the current directory, nothing else exists yet
 FreshLayout ==
